@@ -1372,6 +1372,9 @@ class LangServer:
                 # Forget the file itself, otherwise it keeps answering
                 # documentSymbol and appears in references/rename results
                 self.workspace.pop(filepath, None)
+                # Update include statements that referred to the removed file
+                for _, tmp_file in self.workspace.items():
+                    tmp_file.ast.resolve_includes(self.workspace, path=filepath)
                 # Re-resolve links/inheritance that pointed into the removed file
                 self.link_version = (self.link_version + 1) % 1000
                 for _, tmp_file in self.workspace.items():
